@@ -104,6 +104,7 @@ def run_deductive(P, tier, R):
     R.functions = list(per_func.values())
     R.assumptions |= ex.assumptions
     t0 = time.time()
+    solve.CROSS_S[0] = 20 if tier == "thorough" else 0
     res = solve.discharge(ex.obls, z3_ms=z3_ms, cvc5_s=cvc5_s)
     # second chance for anything left open: 6x budget (keeps solver noise from becoming an alarm)
     retry = [i for i, r in enumerate(res) if r["verdict"] != "unsat"]
@@ -113,6 +114,9 @@ def run_deductive(P, tier, R):
             if r["verdict"] == "unsat":
                 res[i] = r
     R.solve_wall = time.time() - t0
+    for o, r in zip(ex.obls, res):
+        if str(r["verdict"]).startswith("solver-disagreement"):
+            R.errors.append("SOLVER DISAGREEMENT on %s (path %s): %s" % (o.name, o.path, r["verdict"]))
     for o, r in zip(ex.obls, res):
         name = strip_case(o.name)
         a = R.obl.setdefault(name, dict(n=0, ok=0, seconds=0.0, backends=collections.Counter(), bad=[], kind=o.kind, func=o.func))
@@ -195,6 +199,14 @@ def run_bounded(P, R, tier, seed):
             else:
                 n, found, samples = bounded.sweep(c, c.domain(tier, seed), budget_s=spec.get("budget_s", {"quick": 2.5, "thorough": 300})[tier])
         except Exception:
+            tb = traceback.extract_tb(sys.exc_info()[2])
+            if tb and tb[-1].filename.startswith(loader.REPO_SRC):
+                # the real code raised inside a bounded stand-in that did not expect it: a finding about /repo, not a checker crash
+                fn_name = "%s#no-escape(%s)" % (q.replace("ecdsa.", "", 1), type(sys.exc_info()[1]).__name__)
+                R.obl[fn_name] = dict(n=1, ok=0, seconds=0.0, backends=collections.Counter({"bounded": 1}), kind="bounded", func=q,
+                                      bad=[dict(path="-", line=tb[-1].lineno, verdict="raised", instance=fn_name,
+                                                note="the real code raised inside the bounded stand-in `%s`: %s" % (label, traceback.format_exc()[-600:]))])
+                continue
             R.errors.append("bounded run crash on %s: %s" % (label, traceback.format_exc()[-1500:]))
             continue
         total += n
